@@ -57,6 +57,9 @@ impl<K: PartialEq, V> TupleMap<K, V> {
     pub fn iter(&self) -> impl Iterator<Item = &(K, V)> {
         self.0.iter()
     }
+    pub fn iter_mut(&mut self) -> impl Iterator<Item = &mut (K, V)> {
+        self.0.iter_mut()
+    }
     pub fn into_iter(self) -> impl Iterator<Item = (K, V)> {
         self.0.into_iter()
     }
